@@ -8,4 +8,4 @@ static void mu_release_spinlock (nsync_mu *mu)
 __CPROVER_requires (VP_MU_IS (mu) && vp_g.spin && !vp_g.dead)
 __CPROVER_ensures (!vp_g.spin && vp_g.hold == __CPROVER_old (vp_g.hold) && vp_g.waited == __CPROVER_old (vp_g.waited))
 __CPROVER_ensures (vp_g.enq_count == __CPROVER_old (vp_g.enq_count) && (vp_g.dead == 0 || vp_g.release_ctx))
-__CPROVER_assigns (VP_G_STEP, mu->word);
+__CPROVER_assigns (vp_g.spin, vp_g.last_new, vp_g.dead, mu->word);
